@@ -270,7 +270,7 @@ def _is_d32(sub, case, v):
 FINDINGS = [Finding("D32", _is_d32, "float128 histograms cannot be serialised to JSON (TypeError: longdouble is not JSON serializable)")]
 
 SUBS = [
-    Sub("roundtrip", lambda tier: roundtrip_cases(tier), check_roundtrip, quick=1000, thorough=8000),
+    Sub("roundtrip", lambda tier: roundtrip_cases(tier), check_roundtrip, quick=1500, thorough=8000),
     Sub("collection", lambda tier: collection_cases(tier), check_collection, quick=300, thorough=2000),
     Sub("version", lambda tier: version_cases(tier), check_version, quick=300, thorough=2000),
 ]
